@@ -14,7 +14,8 @@ const (
 
 // validationLoop periodically validates the fencing token.
 // If validation fails, the leader is demoted.
-func (e *kvElection) validationLoop(ctx context.Context) {
+// It serves the term identified by termToken and ends with it.
+func (e *kvElection) validationLoop(ctx context.Context, termToken string) {
 	interval := defaultValidationInterval
 	if e.cfg.ValidationInterval > 0 {
 		interval = e.cfg.ValidationInterval
@@ -31,7 +32,7 @@ func (e *kvElection) validationLoop(ctx context.Context) {
 		case <-ctx.Done():
 			return
 		case <-ticker.C:
-			if !e.IsLeader() {
+			if !e.IsLeader() || e.Token() != termToken {
 				return
 			}
 
